@@ -62,6 +62,7 @@ def _verify_case(index, registry, res, module, cls, fnode, contract, key, case, 
     def one_path(ctx: Ctx):
         m = Machine(index, registry, ctx)
         m.callee_stack.append(key)
+        m.top_cls = cls.name if cls is not None else None
         try:
             _run_path(m, ctx, module, cls, fnode, contract, key, res, case, first)
         except Unsupported as u:
@@ -166,6 +167,15 @@ def _run_path(m: Machine, ctx: Ctx, module, cls, fnode, contract, key, res, case
     except (PyBreak, PyContinue):
         raise Unsupported("break/continue outside loop")
 
+    # ---- vacuity guard: the path must still be satisfiable after all assumed callee postconditions / invariants
+    chk = z3.Solver()
+    chk.set("timeout", 250)
+    chk.add(*ctx.pc)
+    if chk.check() == z3.unsat:
+        msg = "vacuity guard: path condition unsatisfiable at exit (contradictory assumed contracts/invariants) on path %s" % (tuple(ctx.decisions),)
+        if msg not in res.errors:
+            res.errors.append(msg)
+        return
     # ---- exit obligations
     if outcome[0] == "return":
         res.outcomes["return"] = res.outcomes.get("return", 0) + 1
